@@ -56,6 +56,13 @@ theorem C10_event_only_if_well_formed (d : Bytes) (s : List Val) (h : classify F
         · cases h
       · cases h
 
+/-- … and conversely every such datagram IS handed to the event callback (with exactly that status):
+    nothing well-formed is dropped or turned into an error -/
+theorem C10_well_formed_is_event (d : Bytes) (r s : List Val) (hl : d.length = 64) (hs : serialOf d ≠ 0)
+    (hr : unmarshal F T B E d = .ok r) (hst : statusResult r = .vals s) : classify F T B E d = .event s := by
+  unfold classify
+  simp [hl, hs, hr, hst]
+
 theorem C10_wrong_length_is_error (d : Bytes) (h : d.length ≠ 64) : classify F T B E d = .error := by
   simp [classify, h]
 
